@@ -58,7 +58,7 @@ def tsan_races(err):
     for blk in err.split("WARNING: ThreadSanitizer:")[1:]:
         kind = blk.split("\n", 1)[0].strip()
         g = re.search(r"Location is global '([^']+)'", blk)
-        fn = re.findall(r"#\d+ ([\w:~<>]+)[^\n]*?/src/(?:phreeqcpp/)?(?:common/)?([\w.]+):\d+", blk)[:2]
+        fn = re.findall(r"#\d+ ([\w:~<>]+)[^\n]*?/src/(?:phreeqcpp/)?(?:common/)?([\w.]+):\d+", blk)[:16]
         out.append((kind, g.group(1) if g else None, fn))
     return out
 
@@ -100,7 +100,7 @@ def run(ctx):
     races = tsan_races(err)
     ctx.extra["tsan_reports_non_transport_workloads"] = len(races)
     for kind, glob, fn in races[:5]:
-        ctx.violation("tsan:%s:%s" % (glob or "?", fn[0][0] if fn else "?"), "ThreadSanitizer: %s on %s in %s while distinct instances run in different threads" % (kind, glob, fn),
+        ctx.violation("tsan:%s:%s" % (glob or "?", fn[0][0] if fn else "?"), "ThreadSanitizer: %s on %s in %s while distinct instances run in different threads" % (kind, glob, fn[:3]),
                       {"kind": "schedule", "threads": 4, "stderr": err[-3000:]})
     if res is None:
         ctx.violation("tsan:crash", "TSan run died: %s" % err[-300:], {"kind": "schedule"})
@@ -117,6 +117,7 @@ def run(ctx):
             k = "F3:transport.cpp-file-scope-globals"
         else:
             k = "tsan:%s:%s" % (glob or "?", fn[0][0] if fn else "?")
+        fn = fn[:4]
         if k in seen:
             continue
         seen.add(k)
